@@ -286,6 +286,11 @@ def build(layout, rng, method='nla'):
         name = newname(kind)
         tg = tags('LIBA_%d' % rng.randint(1, 3), 'ACG')
         l1, l2 = rng.randint(20, 30), rng.randint(20, 30)
+        if kind == 'unplaced_untagged':      # C20 only: an unplaced read the tagger cannot assign to a cell (no tags, plain name)
+            nm = 'plainunplaced%d' % serial[0]
+            reads.append(bamgen.make_read(header, nm, None, 0, _seq(rng, l1), _qual(rng, l1), unmapped=True))
+            note(nm, 0, 0, False, kind, '*')
+            continue
         if kind == 'unplaced_pair':
             reads.append(bamgen.make_read(header, name, None, 0, _seq(rng, l1), _qual(rng, l1), paired=True, read1=True,
                                           unmapped=True, mate_unmapped=True, tags=tg))
